@@ -313,6 +313,7 @@ type c13Cfg struct {
 	n      int
 	silent int
 	noSack bool
+	ecn    bool // the source host requests ECN: the target's SYN-ACK carries ECE
 	run    func(l *lab) (got c13Out, problem string)
 }
 
@@ -393,6 +394,11 @@ func checkC13() fw.Check {
 				}
 				return o, ""
 			}})
+			for _, m := range []string{"sack", "prefer_sack"} {
+				ce := cliChain(fmt.Sprintf("tcp-%s-ecn/N%d", m, n0), n0, false, "-P", "tcp", "-p", "8080", "--tcp-method", m, "-q", "2", "-Q", "1")
+				ce.ecn = true
+				cfgs = append(cfgs, ce)
+			}
 			cc := cliChain(fmt.Sprintf("tcp-sack-disabled-prefer/N%d", n0), n0, false, "-P", "tcp", "-p", "8080", "--tcp-method", "prefer_sack", "-q", "1", "-Q", "0")
 			cc.noSack = true
 			cfgs = append(cfgs, cc)
@@ -484,6 +490,10 @@ func runC13(c *fw.Ctx, id, tag string, cfg c13Cfg) {
 	}
 	if cfg.noSack {
 		l.sysctl(l.n+1, "net.ipv4.tcp_sack=0")
+	}
+	if cfg.ecn {
+		l.sysctl(0, "net.ipv4.tcp_ecn=1")
+		l.sysctl(l.n+1, "net.ipv4.tcp_ecn=1")
 	}
 	// warm-up: neighbour tables (ARP/NDP) along the path; not judged
 	for _, v6 := range []bool{false, true} {
